@@ -27,6 +27,9 @@ type GrammarCase struct {
 func goccWorkload(copyDir string, pkg string, withRepo bool, extra []*corpus.Grammar) []*GrammarCase {
 	var out []*GrammarCase
 	for _, g := range append(corpus.Fixed(), extra...) {
+		if g.Heavy {
+			continue // a parser-driver workload (C03); the gocc-level checks have their own big grammar
+		}
 		out = append(out, &GrammarCase{ID: g.ID, Text: g.Render(pkg, engine.ModuleName+"/act"), File: "g.bnf", NeedFlags: g.Flags,
 			IR: g, Compilable: !g.NoCompile, HasSyntax: g.HasSyntax()})
 	}
